@@ -74,10 +74,15 @@ for q in req.get('globals', []):
         except Exception as e:
             out['errors'].append('%s: %s' % (q, e))
         continue
+    forced = None
+    if '=' in q:
+        # 'bloc::B64index=_ZN4blocL8B64indexE': a table with internal linkage has no linkage name in the DWARF; the caller gives the
+        # assembler name the rendered code uses (GCC's own, from the GIMPLE dump)
+        q, forced = q.split('=', 1)
     try:
         sym = gdb.lookup_global_symbol(q) or gdb.lookup_static_symbol(q)
         v = gdb.parse_and_eval("'%s'" % q)
-        ln = sym.linkage_name if sym is not None else None
+        ln = forced or (sym.linkage_name if sym is not None else None)
         if not ln:
             raise RuntimeError('no linkage name')
         out['defs'].append('/* %s: initialised data of the compiled translation unit */\n%s = %s;' % (q, c_decl(v.type, ln), c_init(v)))
